@@ -80,16 +80,32 @@ Definition str_tree (O : eopts) (text : bool) (s : list N) : wtree :=
 Definition int_tree (z : Z) : wtree :=
   if (z <? 0)%Z then TNint (minw (Z.to_N (-1 - z))) (Z.to_N (-1 - z)) else TUint (minw (Z.to_N z)) (Z.to_N z).
 
-(* items the statement about the encoder covers: OptimumSize off for floats is required by [enc_plain];
-   times and raw extensions are outside *)
+(* OptimumSize: a float32 that survives the trip through half precision is written as a half, a
+   float64 that survives the trip through single precision is handed to the float32 rule *)
+Definition f32_tree (O : eopts) (b : N) : wtree :=
+  if eo_optsize O && (half_to_f32 (f32_to_half b) =? b) then THalf (f32_to_half b) else TSingle b.
+Definition f64_tree (O : eopts) (b : N) : wtree :=
+  if eo_optsize O && f64_eq (widen (narrow b)) b then f32_tree O (narrow b) else TDouble b.
+
+(* EncodeTime: nil for the zero time; tag 0 + RFC 3339 text; or tag 1 + epoch seconds (integer when
+   the microsecond-rounded instant has no fraction, else a float) *)
+Definition time_tree (O : eopts) (sec : Z) (nsec : N) : wtree :=
+  if (sec =? zero_time_sec)%Z && (nsec =? 0) then TSimple 22
+  else if eo_rfc3339 O then TTag W0 0 (str_tree O true (fmt_rfc3339 sec nsec))
+  else
+    let '(s1, n1) := round_us sec nsec in
+    TTag W0 1 (if n1 =? 0 then int_tree s1
+               else f64_tree O (f64_add (f64_of_Z s1) (f64_div (f64_of_Z (Z.of_N n1)) f64_1e9))).
+
+(* the form choices of the encoder (IExt: RawExt.Data is written verbatim, see [plain]) *)
 Fixpoint tree_of (O : eopts) (i : item) : wtree :=
   match i with
   | INil => TSimple 22
   | IBool b => TSimple (if b then 21 else 20)
   | IInt z => int_tree z
   | IUint n => TUint (minw n) n
-  | IF32 b => TSingle b
-  | IF64 b => TDouble b
+  | IF32 b => f32_tree O b
+  | IF64 b => f64_tree O b
   | IStr s => str_tree O (negb (eo_str2raw O)) s
   | IBytes s => str_tree O false s
   | IArr l => if eo_indef O then TArrI (map (tree_of O) l) else TArr (minw (N.of_nat (length l))) (map (tree_of O) l)
@@ -98,10 +114,12 @@ Fixpoint tree_of (O : eopts) (i : item) : wtree :=
       if eo_indef O then TMapI l' else TMap (minw (N.of_nat (length l))) l'
   | ITag t v => TTag (minw t) t (tree_of O v)
   | IExt t _ => TSimple 22
-  | ITime _ _ => TSimple 22
+  | ITime s n => time_tree O s n
   end.
 
-(* the items for which [enc O i = ser (tree_of O i)] is claimed *)
+(* the items for which [enc O i = ser (tree_of O i)] is claimed: everything but IExt (a RawExt with
+   Data is copied verbatim: its well-formedness is the caller's, see C10_cbor_ext); lengths and tags
+   are 64-bit, times have int64 seconds *)
 Fixpoint plain (i : item) : Prop :=
   match i with
   | IArr l => (fix go l := match l with [] => True | x :: r => plain x /\ go r end) l
@@ -109,9 +127,20 @@ Fixpoint plain (i : item) : Prop :=
   | IMap l => (fix go l := match l with [] => True | kv :: r => plain (fst kv) /\ plain (snd kv) /\ go r end) l
               /\ N.of_nat (length l) < 18446744073709551616
   | ITag t v => t < 18446744073709551616 /\ plain v
-  | IExt _ _ | ITime _ _ => False
+  | IExt _ _ => False
+  | ITime s _ => (- 9223372036854775808 <= s < 9223372036854775807)%Z
   | IStr s | IBytes s => N.of_nat (length s) < 18446744073709551616
   | _ => True
+  end.
+
+(* floats as values: a half or a single denotes the double it widens to (exact) *)
+Fixpoint fnorm (x : sdata) : sdata :=
+  match x with
+  | DFloat p b => if p =? 16 then DFloat 64 (widen (spec_half b)) else if p =? 32 then DFloat 64 (widen b) else DFloat p b
+  | DArr l => DArr (map fnorm l)
+  | DMap l => DMap (map (fun kv => (fnorm (fst kv), fnorm (snd kv))) l)
+  | DTag t v => DTag t (fnorm v)
+  | _ => x
   end.
 
 (* what the skip walker accepts: it rejects simple values other than false/true/null/undefined *)
